@@ -621,7 +621,9 @@ def check_C06(tier, seed):
         "control character: no width of its own, counts 1), e-acute "
         "(2 bytes), combining acute (2 bytes, width 0), CJK (3 bytes, width 2), emoji (4 bytes, "
         "width 2)} whose rules overlap so that lexers rewind; " + INPUTS_RULE +
-        "compared: all Loc triples of match_loc(), tokens and errors, and match_() text")
+        "compared: all Loc triples of match_loc(), tokens and errors, and match_() text; every behaviour "
+        "is replayed through `new` and through `new_from_iter` (locations must be exact for both)",
+        ctors=(0, 2))
 
 
 def check_C07(tier, seed):
@@ -1137,18 +1139,21 @@ def check_C14(tier, seed):
                               p_eoi=0.2, menu_sizes=(1, 2), p_fal=0.2, sigma=(F.A, F.B, F.C, 233, 28450))
              + F.fixed_mm(5000)[:6] + F.builtin_family(7000, k=k)
              # rewinds over multi-byte / wide characters, newlines and tabs
-             + F.join_templates(seed + 3, max(6, n // 3), 9000, k=k + 1, letters=(97, 10, 233, 28450),
-                                sigma=(97, 10, 9, 233, 28450), p_eoi=0.2, nsets=(1, 2))
+             + F.join_templates(seed + 3, max(6, n // 3), 9000, k=k + 1, letters=(97, 10, 769, 28450),
+                                sigma=(97, 10, 9, 233, 769, 28450), p_eoi=0.2, nsets=(1, 2))
              + F.random_general(seed + 4, max(6, n // 3), 11000, k=k, nsets=(1, 2), nrules=(2, 3, 4), p_ctx=0.2,
-                                menu_sizes=(1, 2), p_fal=0.2, letters=(97, 10, 233, 28450),
-                                sigma=(97, 10, 9, 233, 28450)))
+                                menu_sizes=(1, 2), p_fal=0.2, letters=(97, 10, 233, 769, 28450),
+                                sigma=(97, 10, 9, 233, 769, 28450))
+             # C06's family over the whole location alphabet
+             + F.random_general(seed, n, 13000, k=3, nsets=(1,), nrules=(2, 3, 4), p_eoi=0.1,
+                                menu_sizes=(1, 2), p_fal=0.1, letters=LOC_SIGMA, sigma=LOC_SIGMA, depth=2))
     byid = {p.id: p for p in progs}
     fr = replay_family("C14", progs, ctors=(0, 1, 2, 3), workers=8 if tier == "quick" else 14,
                        tlc_timeout=700 if tier == "quick" else 3300)
     out.coverage = base_coverage(
         fr, "programs: seeded random definitions (rewinding rules, contexts, `$`, several rule "
             "sets, multi-byte characters in the alphabet, and definitions whose letters are a, newline, "
-            "e-acute and a CJK character so that lexers rewind over them); every behaviour of RefLexer.tla for all "
+            "e-acute, a zero-width combining accent and a CJK character so that lexers rewind over them); every behaviour of RefLexer.tla for all "
             "inputs <= k is replayed through new, new_with_state, new_from_iter and "
             "new_from_iter_with_state (iterator: a cloneable iterator over shared storage); the "
             "four recorded streams (without match_() text) must be identical; then random inputs "
@@ -1402,47 +1407,56 @@ def class_family(seed, n, base_id, tables=None):
 
 
 def guard_size_family(seed, base_id):
-    """Hand-written classes with 8..11 pieces (one-character and longer ranges mixed), i.e. just
+    """Hand-written classes with 8..11 ranges (plus two single characters), i.e. just
     below and above the size at which code generation switches from a chain of range guards to a
-    binary-search table (MAX_GUARD_SIZE = 9), in four positions: alone (terminal target), before
-    another character (kept target state), twice in one rule (one table, two states), and as a
-    right context."""
+    binary-search table (MAX_GUARD_SIZE = 9).  Each class A comes with a sibling B that has the
+    same first and last character and the same number of pieces but differs in one character, and
+    the two are used: A alone (terminal target), A before another character (kept target state),
+    A then B in one rule, A as a rule and B as a right context, A and B in two rule sets -- so
+    that tables or guards that are shared, cached or named by anything less than their contents
+    show."""
     import random
-    from progs import set_, chr_, cat, any_, opt
+    from progs import set_, chr_, cat, any_
     rnd = random.Random(seed * 31 + 5)
     out = []
     for n in (8, 9, 10, 11):
-        for shape in ("alone", "kept", "twice", "ctx"):
-            c0 = 40
-            items = []
-            for _ in range(n):
-                ln = rnd.choice([1, 1, 2, 3])
-                items.append((c0, c0 + ln - 1))
-                c0 += ln + rnd.choice([1, 2])
-            rnd.shuffle(items)
-            cls = set_(items)
-            pts = set()
-            for a, b_ in items:
-                pts |= {a - 1, a, b_, b_ + 1}
-            if shape == "alone":
-                rules = [F.simple_rule(cls), F.simple_rule(any_())]
-                sig, k = sorted(pts), 1
-            elif shape == "kept":
-                rules = [F.simple_rule(cat(cls, chr_(120))), F.simple_rule(cls), F.simple_rule(any_())]
-                sig, k = sorted(pts | {120}), 2
-            elif shape == "twice":
-                rules = [F.simple_rule(cat(cls, cls)), F.simple_rule(any_())]
-                sig, k = sorted(rnd.sample(sorted(pts), min(len(pts), 14))), 2
-            else:
-                rules = [F.simple_rule(chr_(120), ctx=cls), F.simple_rule(chr_(120)), F.simple_rule(any_())]
-                sig, k = sorted(pts | {120}), 2
-            out.append(Program(base_id + len(out), [("Init", rules)], sigma=sig, k=k, named=False))
-        # the same class in two rule sets (one table per use, or one shared table)
-        sig = sorted(rnd.sample(sorted(pts), min(len(pts), 12)) + [120])
+        c0 = 36
+        items = []
+        for i_ in range(n + 2):
+            # n proper ranges (a one-character piece is a character transition, not a range) and
+            # two single characters
+            ln = 1 if i_ in (2, n) else rnd.choice([2, 2, 3])
+            items.append((c0, c0 + ln - 1))
+            c0 += ln + 2
+        # the sibling: one interior range gains the character before it (same number of ranges)
+        j = rnd.choice([i_ for i_ in range(1, n + 1) if items[i_][1] > items[i_][0]])
+        lo, hi = items[j]
+        sib = list(items)
+        sib[j] = (lo - 1, hi)
+        a_items, b_items = list(items), list(sib)
+        rnd.shuffle(a_items)
+        rnd.shuffle(b_items)
+        A, B = set_(a_items), set_(b_items)
+        pts = set()
+        for a, b_ in items + sib:
+            pts |= {a - 1, a, b_, b_ + 1}
+        allp = sorted(pts)
+        few = sorted(set(rnd.sample(allp, min(len(allp), 10)) + [lo - 1, lo, lo + 1, hi]))
+        X = 120
+        out.append(Program(base_id + len(out), [("Init", [F.simple_rule(A), F.simple_rule(any_())])],
+                           sigma=allp, k=1, named=False))
+        out.append(Program(base_id + len(out), [("Init", [F.simple_rule(cat(A, chr_(X))), F.simple_rule(A),
+                                                         F.simple_rule(any_())])],
+                           sigma=allp + [X], k=2, named=False))
+        out.append(Program(base_id + len(out), [("Init", [F.simple_rule(cat(A, B)), F.simple_rule(any_())])],
+                           sigma=few, k=2, named=False))
+        out.append(Program(base_id + len(out), [("Init", [F.simple_rule(chr_(X), ctx=B), F.simple_rule(cat(A, chr_(X))),
+                                                         F.simple_rule(chr_(X)), F.simple_rule(any_())])],
+                           sigma=few + [X], k=3, named=False))
         out.append(Program(base_id + len(out), [
-            ("Init", [F.inf_rule(cls, menu=[F.D(False, 1, 1)]), F.simple_rule(any_())]),
-            ("S1", [F.inf_rule(cat(cls, chr_(120)), menu=[F.D(False, 0, 1)]), F.simple_rule(cls), F.simple_rule(any_())])],
-            sigma=sig, k=3))
+            ("Init", [F.inf_rule(cat(A, chr_(X)), menu=[F.D(False, 1, 1)]), F.simple_rule(any_())]),
+            ("S1", [F.inf_rule(cat(B, chr_(X)), menu=[F.D(False, 0, 1)]), F.simple_rule(any_())])],
+            sigma=few + [X], k=4))
     return [p for p in out if p.well_formed()]
 
 
@@ -1541,8 +1555,9 @@ def check_C11(tier, seed):
                 "boundary point +-1 against RefLexer.tla; and families.arm_family (classes in the "
                 "middle of rules that share a prefix: one state with character, range and `_` arms "
                 "at once) on all inputs of length <= 3; and hand-written classes of 8..11 pieces (around "
-                "the guard-chain / search-table threshold) alone, before a character, twice in a rule "
-                "and as a right context, on every boundary point" % maxpoint,
+                "the guard-chain / search-table threshold), each with a sibling class that has the same "
+                "first / last character and number of pieces but differs in one character: alone, before a "
+                "character, both in one rule, one as a rule and one as a right context, in two rule sets" % maxpoint,
         "samples": [{"transition": trs[0]}] if trs else [],
         "tlc_cmd": tlc.cmd, "exhaustive": True,
     }
@@ -2803,12 +2818,26 @@ def check_C12(tier, seed):
             raise ToolError("MC_NamesRec: " + str(nr.error))
         okn = {x["name"] for x in nr.tagged.get("NAMESOK", [])}
         names_ok = len(okn)
+        drift = [r for r in names_rec if r["name"] not in okn]
+        for r in drift[:3]:
+            # another clash-free scheme is as good as this one: not an alarm
+            out.notes.append("MODEL-DRIFT: module-level items of %s are not the ones Names.tla's scheme gives: %s" % (
+                r["name"], [x for x in r["items"] if "ACTION" not in x][:8]))
+        # what the property needs, on the recorded names themselves: all these lexers could be
+        # declared in one module, so no identifier may be declared by two of them (or twice by one)
+        owner = {}
         for r in names_rec:
-            if r["name"] not in okn and len([v for v in out.violations if v["key"].startswith("names")]) < 3:
-                out.violations.append({"key": "names scheme %s" % sorted(x for x in r["items"] if not x.startswith("fn L") or "ACTION" not in x)[:8],
-                                       "desc": "module-level items of %s are not the ones the clash-free naming scheme gives: %s" % (
-                                           r["name"], [x for x in r["items"] if "ACTION" not in x][:10]),
-                                       "payload": {"kind": "names", "recorded": r}})
+            idents = [x.split()[-1] for x in r["items"]]
+            dup = sorted({x for x in idents if idents.count(x) > 1})
+            clash = sorted({x for x in idents if x in owner and owner[x] != r["name"]})
+            for x in idents:
+                owner.setdefault(x, r["name"])
+            if (dup or clash) and len([v for v in out.violations if v["key"].startswith("names")]) < 3:
+                out.violations.append({
+                    "key": "names clash %s" % (dup or clash)[:4],
+                    "desc": "module-level item(s) %s of lexer %s are declared %s: several lexers in one module cannot compile" % (
+                        (dup or clash)[:4], r["name"], "twice by its own expansion" if dup else "by the expansion of lexer %s too" % owner[clash[0]]),
+                    "payload": {"kind": "names", "recorded": r}})
     # every definition that Defs.tla calls well-formed (lets at top level and inside rule sets, the
     # same local name in different rule sets, lazily resolved variables, ...) must expand
     wf_cases = []
@@ -2897,7 +2926,9 @@ def check_C12(tier, seed):
                 "1-3 rule sets, contexts, `$`, variables, repeated bracket-set members, big built-ins, the "
                 "property's own examples) are expanded twice by the real macro under a watchdog "
                 "(outcome ok, identical token streams, < 30 s), the recorded work-list iterations are "
-                "validated against Backtrack.tla, recorded item names against Names.tla; the scenarios "
+                "validated against Backtrack.tla; the recorded module-level item names of all these lexers "
+                "must be pairwise disjoint and distinct (they could all be declared in one module) - the "
+                "comparison with Names.tla's particular scheme is a drift note only; the scenarios "
                 "the property lists (several table-using lexers in one module, contexts of any shape, "
                 "repeated set members, large built-ins with many rule sets) and a sample of the family "
                 "are compiled by rustc and smoke-run" % (2 if tier == "quick" else 3),
